@@ -419,6 +419,11 @@ func bugMutations() []hostileMut {
 		h.Commits[0].Ops[0]["type"] = json.Number("3") // add-comment
 	}})
 	ms = append(ms, hostileMut{Name: "rule:op-of-other-author-in-pack", Class: "unclassified", Apply: func(h *hostileHistory, at int) {}})
+	// a perfectly valid history whose root differs from the root of the bug the victim holds under the same id
+	// (same create operation, other clocks): only used with the local situation "unrelated"
+	ms = append(ms, hostileMut{Name: "foreign:unrelated-root-same-id", Class: "must-reject", RootOnly: true, Apply: func(h *hostileHistory, at int) {
+		h.Commits[0].Entries = stdEntries(1, 7)
+	}})
 	// --- per kind payload
 	kind := func(name, class string, t int, f func(o map[string]any)) {
 		ms = append(ms, hostileMut{Name: name, Class: class, NonRoot: t != 1, RootOnly: t == 1, Apply: func(h *hostileHistory, at int) { f(opOfType(&h.Commits[at], t)) }})
@@ -491,6 +496,8 @@ func bugMutations() []hostileMut {
 	refm("ref:name-uppercase", "must-reject", func(h *hostileHistory) { h.RefName = strings.Repeat("AB", 32) })
 	refm("ref:name-65-chars", "must-reject", func(h *hostileHistory) { h.RefName = strings.Repeat("a", 65) })
 	refm("ref:name-differs-from-content-id", "must-reject", func(h *hostileHistory) { h.RefName = strings.Repeat("c0", 32) })
+	// a valid history served under the name of a bug the victim holds (another entity)
+	refm("ref:name-of-an-existing-local-bug", "must-reject", func(h *hostileHistory) { h.RefName = "@victim-bug" })
 	refm("ref:points-to-blob", "must-reject", func(h *hostileHistory) { h.RefTarget = "blob" })
 	refm("ref:points-to-tree", "must-reject", func(h *hostileHistory) { h.RefTarget = "tree" })
 	sort.SliceStable(ms, func(i, j int) bool { return ms[i].Name < ms[j].Name })
@@ -719,6 +726,45 @@ func runHostileCase(c HostileCase) HostileResult {
 	switch c.Local {
 	case "absent":
 		hist.Commits = validChain(hauthor, c.Len, c.Name)
+	case "unrelated":
+		// the victim holds the valid bug, received from a well-behaved remote; the hostile remote serves, under the
+		// same (correct) name, a history that starts from another root commit
+		good, err := world.InitRepo(filepath.Join(dir, "good"), true)
+		if err != nil {
+			res.HarnessError = err.Error()
+			return res
+		}
+		defer func() { _ = good.Repo.Close() }()
+		if msg := transplantIdentity(evil.Repo, good.Repo, hauthor.Id().String()); msg != "" {
+			res.HarnessError = "identity to good remote: " + msg
+			return res
+		}
+		full := validChain(hauthor, c.Len, c.Name)
+		ghead, cid, err := writeHostile(good.Repo, hauthor.Id().String(), &hostileHistory{Commits: full})
+		if err != nil || cid == "" {
+			res.HarnessError = fmt.Sprintf("good base: %v", err)
+			return res
+		}
+		if err := good.Repo.UpdateRef("refs/bugs/"+cid, ghead); err != nil {
+			res.HarnessError = err.Error()
+			return res
+		}
+		if err := victim.Tested.AddRemote("good", good.Tested.GetLocalRemote()); err != nil {
+			res.HarnessError = err.Error()
+			return res
+		}
+		if ml := victim.Pull("good"); ml.Err != nil {
+			res.HarnessError = "pull from the good remote: " + ml.Err.Error()
+			return res
+		}
+		if _, err := world.ReadBug(victim.Repo, entity.Id(cid)); err != nil {
+			res.HarnessError = "valid bug not readable by the victim: " + err.Error()
+			return res
+		}
+		localRefName = cid
+		other := validChain(hauthor, c.Len, c.Name+"-other")
+		other[0].Ops = full[0].Ops // same create operation, hence the same entity id
+		hist.Commits = other
 	default:
 		// the victim first receives the valid prefix
 		full := validChain(hauthor, c.Len+1, c.Name)
@@ -814,6 +860,9 @@ func runHostileCase(c HostileCase) HostileResult {
 	}
 	if hist.RefName != "" {
 		refName = hist.RefName
+	}
+	if refName == "@victim-bug" {
+		refName = b1.Id().String()
 	}
 	if res.Class == "field" {
 		res.Class = classifyFieldMutation(c.Mut, res.Field)
@@ -1060,6 +1109,9 @@ func c07Cases(r *mon.Run) []HostileCase {
 	}
 	idx := 0
 	for _, m := range bugMutations() {
+		if strings.HasPrefix(m.Name, "foreign:") {
+			continue
+		}
 		lens := []int{1, 3}
 		if r.Thorough() {
 			lens = []int{1, 2, 3, 4}
@@ -1089,6 +1141,9 @@ func c07Cases(r *mon.Run) []HostileCase {
 				}
 			}
 		}
+		if m.Name == "ref:name-of-an-existing-local-bug" {
+			continue // makes no sense on top of a prefix the victim already holds under its true name
+		}
 		if !m.RootOnly && !strings.HasPrefix(m.Name, "ref:name") {
 			// on top of a valid prefix the victim already holds
 			for _, loc := range []string{"behind", "diverged"} {
@@ -1099,6 +1154,11 @@ func c07Cases(r *mon.Run) []HostileCase {
 				}
 				add(HostileCase{Entity: "bug", Mut: m.Name, Len: ln, At: ln, Local: loc, API: api, Place: "remote"})
 			}
+		}
+	}
+	for _, ln := range []int{1, 2, 3} {
+		for _, api := range []string{"entity", "cache"} {
+			add(HostileCase{Entity: "bug", Mut: "foreign:unrelated-root-same-id", Len: ln, At: 0, Local: "unrelated", API: api, Place: "remote"})
 		}
 	}
 	for _, m := range fieldMutations() {
